@@ -106,6 +106,15 @@ int kalign_run(struct msa *msa, int n_threads, int type, float gpo, float gpe, f
         RUN(alloc_tasks(&tasks, msa->numseq));
 
 #ifdef HAVE_OPENMP
+        /* omp_set_num_threads() takes any positive number, but the runtime sets a team of tens of
+           thousands of threads up on its stack and overflows it */
+        if(n_threads < 1){
+                n_threads = 1;
+        }
+        if(n_threads > 1024){
+                WARNING_MSG("%d threads requested; using 1024.", n_threads);
+                n_threads = 1024;
+        }
         omp_set_num_threads(n_threads);
 #endif
         /* Build guide tree */
